@@ -352,6 +352,9 @@ func NewWithConsts(ctx context.Context, nodeID string,
 	}
 	s.vn = fmt.Sprintf("%s@%d", nodeID, s.epoch)
 	verifhook.Emit(s.vn, "node_new", "id", nodeID, "epoch", s.epoch)
+	if verifhook.On {
+		verifhook.Emit(s.vn, "node_wg", "wg", fmt.Sprintf("%p", &s.backendWaitGroup))
+	}
 	s.reservedServices = map[string]func(*MessageData) error{
 		"ping":    s.handlePing,
 		"unreach": s.handleUnreachable,
@@ -801,16 +804,21 @@ func (s *Netceptor) monitorConnectionAging() {
 		select {
 		case <-time.After(5 * time.Second):
 			timedOut := make(map[string]context.CancelFunc, 0)
+			verifhook.Emit(s.vn, "idle_tick")
 			s.connLock.RLock()
 			for conn := range s.connections {
 				connInfo := s.connections[conn]
 				connInfo.lastReceivedLock.RLock()
 				if time.Since(connInfo.lastReceivedData) > s.maxConnectionIdleTime {
 					timedOut[conn] = s.connections[conn].CancelFunc
+					if verifhook.On {
+						verifhook.Emit(s.vn, "idle_cut", "peer", conn, "sess", connInfo.vsess, "idle_ms", time.Since(connInfo.lastReceivedData).Milliseconds(), "max_ms", s.maxConnectionIdleTime.Milliseconds())
+					}
 				}
 				connInfo.lastReceivedLock.RUnlock()
 			}
 			s.connLock.RUnlock()
+			verifhook.Emit(s.vn, "idle_scan_end", "n", len(timedOut))
 			for conn := range timedOut {
 				s.Logger.Warning("Timing out connection %s, idle for the past %s\n", conn, s.maxConnectionIdleTime)
 				verifhook.Emit(s.vn, "idle_timeout", "peer", conn)
@@ -1839,6 +1847,7 @@ func (s *Netceptor) noteServiceWithdrawn(nodeID string, service string, t time.T
 
 // Goroutine to send data from the backend to the connection's ReadChan.
 func (ci *connInfo) protoReader(sess BackendSession) {
+	defer verifhook.Emit(ci.vn, "reader_exit", "sess", ci.vsess)
 	for {
 		buf, err := sess.Recv(1 * time.Second)
 		if err == ErrTimeout {
@@ -1854,6 +1863,7 @@ func (ci *connInfo) protoReader(sess BackendSession) {
 		}
 		ci.lastReceivedLock.Lock()
 		ci.lastReceivedData = time.Now()
+		verifhook.Emit(ci.vn, "rx", "sess", ci.vsess)
 		ci.lastReceivedLock.Unlock()
 		select {
 		case <-ci.Context.Done():
@@ -1865,6 +1875,7 @@ func (ci *connInfo) protoReader(sess BackendSession) {
 
 // Goroutine to send data from the connection's WriteChan to the backend.
 func (ci *connInfo) protoWriter(sess BackendSession) {
+	defer verifhook.Emit(ci.vn, "writer_exit", "sess", ci.vsess)
 	for {
 		select {
 		case <-ci.Context.Done():
@@ -1891,6 +1902,7 @@ func (ci *connInfo) protoWriter(sess BackendSession) {
 
 // Continuously sends routing updates to let the other end know who we are on initial connection.
 func (s *Netceptor) sendInitialConnectMessage(ci *connInfo, initDoneChan chan bool) {
+	defer verifhook.Emit(s.vn, "init_exit", "sess", ci.vsess)
 	count := 0
 	for {
 		ri, err := s.translateStructToNetwork(MsgTypeRoute, s.makeRoutingUpdate(0))
@@ -1902,12 +1914,14 @@ func (s *Netceptor) sendInitialConnectMessage(ci *connInfo, initDoneChan chan bo
 		s.Logger.Debug("Sending initial connection message\n")
 		select {
 		case ci.WriteChan <- ri:
+			verifhook.Emit(s.vn, "init_send", "sess", ci.vsess, "count", count+1)
 		case <-ci.Context.Done():
 			return
 		}
 		count++
 		if count > 10 {
 			s.Logger.Warning("Giving up on connection initialization\n")
+			verifhook.Emit(s.vn, "init_giveup", "sess", ci.vsess)
 			ci.CancelFunc()
 
 			return
@@ -1920,6 +1934,7 @@ func (s *Netceptor) sendInitialConnectMessage(ci *connInfo, initDoneChan chan bo
 		case <-ci.Context.Done():
 			return
 		case <-initDoneChan:
+			verifhook.Emit(s.vn, "init_done", "sess", ci.vsess)
 			s.Logger.Debug("Stopping initial updates\n")
 
 			return
@@ -1981,12 +1996,16 @@ func (s *Netceptor) runProtocol(ctx context.Context, sess BackendSession, bi *Ba
 		if established || registered {
 			select {
 			case s.sendRouteFloodChan <- 0:
+				verifhook.Emit(s.vn, "req_update", "peer", remoteNodeID)
 			case <-ctx.Done(): // ctx is a child of s.context
+				verifhook.Emit(s.vn, "req_skip", "peer", remoteNodeID, "what", "update")
 				return
 			}
 			select {
 			case s.updateRoutingTableChan <- 0:
+				verifhook.Emit(s.vn, "req_rebuild", "peer", remoteNodeID)
 			case <-ctx.Done():
+				verifhook.Emit(s.vn, "req_skip", "peer", remoteNodeID, "what", "rebuild")
 				return
 			}
 		}
